@@ -228,3 +228,32 @@ def weights_exact(spec):
     """True when every weight is a multiple of 1/8 (sums are exact in binary floating point)."""
     w = spec.weight
     return w is None or not bool(np.any((np.asarray(w, dtype=float) * 8) % 1 != 0))
+
+
+def add_first_element_difference(g, facets, transforms, which=("rows", "cols")):
+    """Append a difference whose only subtrahend is the *first* valid category (offset 0 among
+    the valid elements: `any([0])` is False) and whose addends are other categories."""
+    lf = library_order_facets(facets)
+    nd = len(lf)
+    targets = {"rows": lf[0]} if nd == 1 else {"rows": lf[nd - 2], "cols": lf[nd - 1]}
+    done = []
+    for name in which:
+        if name not in targets:
+            continue
+        role, var = targets[name]
+        if not insertable(role, var):
+            continue
+        cats = var.cats if role == "ca_cats" else var.axis_cats
+        valid_ids = [c["id"] for c in cats if not c.get("missing")]
+        if len(valid_ids) < 2:
+            continue
+        key = "rows_dimension" if name == "rows" else "columns_dimension"
+        dd = transforms.setdefault(key, {})
+        cur = list(dd.get("insertions") or (var.view_insertions or []))
+        others = valid_ids[1:]
+        cur.append({"function": "subtotal", "name": "minus first", "anchor": "bottom",
+                    "kwargs": {"positive": g.r.sample(others, g.r.randint(1, min(2, len(others)))),
+                               "negative": [valid_ids[0]]}, "id": 78})
+        dd["insertions"] = cur
+        done.append(name)
+    return done
